@@ -108,21 +108,31 @@ def check_iban(index: dict, country: str, key: str):
     probs = []
     es = index.get((country, key))
     exp_bank = es[0] if es else None
-    got_bank = o.bank
+    kk, got_bank = lib.outcome(lambda: o.bank)
+    if kk != "ok":
+        return [("iban.bank-raises", "entry or None", (kk, got_bank))]
     if got_bank != exp_bank:
         probs.append(("iban.bank-differs", exp_bank, got_bank))
     exp_names = (exp_bank["name"], exp_bank["short_name"]) if exp_bank else (None, None)
-    got_names = (o.bank_name, o.bank_short_name)
+    kn, got_names = lib.outcome(lambda: (o.bank_name, o.bank_short_name))
+    if kn != "ok":
+        return probs + [("iban.bank_name-raises", exp_names, (kn, got_names))]
     if got_names != exp_names:
         probs.append(("iban.bank_name-differs", exp_names, got_names))
     k2, chosen = lib_chosen(country, key)
-    got_bic = o.bic
+    kb, got_bic = lib.outcome(lambda: o.bic)
+    if kb != "ok":
+        probs.append(("iban.bic-raises", "BIC or None", (kb, got_bic)))
+        return probs
     if k2 == "ok":
         if got_bic is None or str(got_bic) != chosen:
             probs.append(("iban.bic-differs-from-lookup", chosen, None if got_bic is None else str(got_bic)))
     elif got_bic is not None:
         probs.append(("iban.bic-not-None-for-unlisted-bank", None, str(got_bic)))
-    if (o.bban.bank != got_bank) or (str(o.bban.bic) != str(got_bic)):
+    kx, both = lib.outcome(lambda: (o.bban.bank, str(o.bban.bic)))
+    if kx != "ok":
+        return probs + [("bban.bank/bic-raises", "values", (kx, both))]
+    if (both[0] != got_bank) or (both[1] != str(got_bic)):
         probs.append(("iban-and-bban-lookups-disagree", (got_bank, str(got_bic)),
                       (o.bban.bank, str(o.bban.bic))))
     return probs
